@@ -24,6 +24,7 @@ import (
 	"os"
 	"path"
 	"path/filepath"
+	"sort"
 	"strings"
 
 	"github.com/pkg/errors"
@@ -135,7 +136,9 @@ func (cfg *Configuration) renderResources(ch *chart.Chart, values chartutil.Valu
 	// look for terminating NOTES.txt. We also remove it from the files so that we don't have to skip
 	// it in the sortHooks.
 	var notesBuffer bytes.Buffer
-	for k, v := range files {
+	// Visit the files in path order so that the notes text does not depend on map iteration order.
+	for _, k := range sortedKeys(files) {
+		v := files[k]
 		if strings.HasSuffix(k, notesFileSuffix) {
 			if subNotes || (k == path.Join(ch.Name(), "templates", notesFileSuffix)) {
 				// If buffer contains data, add newline before adding more
@@ -159,7 +162,8 @@ func (cfg *Configuration) renderResources(ch *chart.Chart, values chartutil.Valu
 		//
 		// We return the files as a big blob of data to help the user debug parser
 		// errors.
-		for name, content := range files {
+		for _, name := range sortedKeys(files) {
+			content := files[name]
 			if strings.TrimSpace(content) == "" {
 				continue
 			}
@@ -217,6 +221,16 @@ func (cfg *Configuration) renderResources(ch *chart.Chart, values chartutil.Valu
 	}
 
 	return hs, b, notes, nil
+}
+
+// sortedKeys returns the keys of m in ascending order.
+func sortedKeys(m map[string]string) []string {
+	keys := make([]string, 0, len(m))
+	for k := range m {
+		keys = append(keys, k)
+	}
+	sort.Strings(keys)
+	return keys
 }
 
 // RESTClientGetter gets the rest client
